@@ -1,7 +1,7 @@
 """C10 / C03 / C18 (polars container): _coerce_dtype_helper and coerce_dtype.
 
-    helper.post.each_coercing_column_is_coerced_once_in_schema_order   (schema-level coerce or the column's own flag; an absent OPTIONAL
-                                                                        column is skipped; with a dataframe-level dtype the whole frame
+    helper.post.each_coercing_column_is_coerced_once_in_schema_order   (schema-level coerce or the column's own flag; a column that is
+                                                                        ABSENT from the frame is skipped - required or not; with a dataframe-level dtype the whole frame
                                                                         is coerced once instead)
     helper.post.only_its_own_column                                    each column's data type gets the frame WITH that column's selector
     helper.post.each_coercion_continues_from_the_previous_result
@@ -36,6 +36,8 @@ class Dt:
     def _do(self, which, data):
         p = cur()
         p.ghost.setdefault("casts", []).append((self.tag, which, data))
+        if isinstance(data, Obj) and data.attrs.get("key") is not None and data.attrs.get("key") not in p.ghost["names"]:
+            raise PyExc(self.I.make_exc(OtherException))  # casting a column the frame does not have: polars ColumnNotFoundError
         k = p.choose([("returns", None), ("ParserError", None)], f"{self.tag}.{which}")
         if k == 1:
             e = self.I.make_exc(ParserError)
@@ -93,7 +95,7 @@ class PolarsCoerceHelper(Contract):
         for k in ("k0", "k1"):
             c = T.Ref(None, coerce=T.Bool, required=T.Bool).fresh(f"column_{k}")
             dt = Dt(I, k)
-            for a, v in (("dtype", dt), ("name", k), ("selector", k)):
+            for a, v in (("dtype", dt), ("name", k), ("selector", k), ("regex", False)):  # (non-regex columns: a regex selector never fails to resolve)
                 c.attrs[a] = v
                 c.attrs0[a] = v
             dict.__setitem__(cols, k, c)
@@ -122,10 +124,8 @@ class PolarsCoerceHelper(Contract):
         want = []
         for k in ("k0", "k1"):
             c = g["meta"][k]
-            req = fld0(c, "required")
-            req = bool(cur().decide(req, f"required[{k}]")) if not isinstance(req, bool) else req
-            if not req and k not in g["present"]:
-                continue
+            if k not in g["present"]:
+                continue  # nothing to coerce; a missing REQUIRED column is reported by check_column_presence (no polars error may escape)
             cc = fld0(c, "coerce")
             cc = bool(cur().decide(cc, f"coerce[{k}]")) if not isinstance(cc, bool) else cc
             if sc or cc:
@@ -165,7 +165,37 @@ class PolarsCoerceHelper(Contract):
         out["returns_the_last_coerced_frame"] = result is last
         return out
 
+    def concretize(self, rec):
+        def thunk():
+            import warnings
+
+            import polars as pl
+            import pandera as pa
+            import pandera.polars as pp
+
+            warnings.simplefilter("ignore")
+            obs, bad = {}, False
+            for name, schema in (("column-level coerce", pp.DataFrameSchema({"x": pp.Column(int), "y": pp.Column(int, coerce=True)})),
+                                 ("schema-level coerce", pp.DataFrameSchema({"x": pp.Column(int), "y": pp.Column(int)}, coerce=True))):
+                for lazy in (False, True):
+                    try:
+                        schema.validate(pl.DataFrame({"x": [1]}), lazy=lazy)
+                        got = "accepted"
+                    except (pa.errors.SchemaError, pa.errors.SchemaErrors) as e:
+                        codes = [x.reason_code.name for x in e.schema_errors] if hasattr(e, "schema_errors") else [e.reason_code.name]
+                        got = "SchemaError(s) " + ",".join(sorted(set(codes)))
+                    except Exception as e:  # noqa: BLE001
+                        got = "leaked " + type(e).__name__
+                    if got != "SchemaError(s) COLUMN_NOT_IN_DATAFRAME":
+                        bad = True
+                        obs[f"{name}, required column y absent, lazy={lazy}"] = got
+            return bad, obs or "an absent required column under coercion is reported as COLUMN_NOT_IN_DATAFRAME"
+
+        return thunk
+
     def on_raise(self, exc, old, self_, obj, schema):
+        if exc.cls is not SchemaErrors:
+            return {}  # (reported by exit.only_documented_exceptions)
         pe = cur().ghost.get("parser_error")
         out, _ = self._cast_posts(obj, schema, False)
         errs = exc.attrs.get("schema_errors")
